@@ -73,6 +73,7 @@ def do_confirm(i):
     env = dict(os.environ, CARGO_NET_OFFLINE='true', CARGO_TARGET_DIR=os.path.join(d, 'target'))
     if os.path.isdir('/repo/target'):
         subprocess.call(['cp', '-al', '/repo/target', os.path.join(d, 'target')])
+        subprocess.call(['find', os.path.join(d, 'target'), '-name', '.cargo-lock', '-delete'])
     try:
         demo_targets = []
         for rel in m['demo_files']:
